@@ -53,7 +53,7 @@ def main():
                 rc, out = sh('timeout 300 /venv/bin/python _seeded/demo.py', cwd=d, env=dict(env, PYTHONPATH=d))
                 res[f'demo_exit_{tag}_patch'] = rc
                 res[f'demo_tail_{tag}_patch'] = out[-400:]
-            rc, out = sh('timeout 1500 /venv/bin/python -m pytest -q -p no:cacheprovider --timeout=900 -n 8 -o addopts=""', cwd=d1, env=dict(env, PYTHONPATH=d1))
+            rc, out = sh('timeout 1500 /venv/bin/python -m pytest -q -p no:cacheprovider --timeout=900 -n 8 --dist=loadscope -o addopts=""', cwd=d1, env=dict(env, PYTHONPATH=d1))
             res['tests_with_patch'] = out.strip().splitlines()[-1] if out.strip() else f'rc={rc}'
             res['tests_rc'] = rc
             if rc != 0:
